@@ -596,10 +596,13 @@ class Shelxfile():
                     self.list = int(spline[1])
             elif word == "FVAR":
                 # FVAR osf[1] free variables
+                # Free variables defined in an include file belong to the model, but the include file is not part
+                # of the written res file (the '+filename' line stays), so they must not be written there:
+                included = line_num in self.delete_on_write
                 for fvvalue in spline[1:]:
                     fvarnum += 1
-                    self._append_card(self.fvars, FVAR(fvarnum, float(fvvalue)), line_num)
-                    if self.fvars not in self._reslist:
+                    self._append_card(self.fvars, FVAR(fvarnum, float(fvvalue), included=included), line_num)
+                    if not included and self.fvars not in self._reslist:
                         self._reslist[line_num] = self.fvars
                     else:
                         self.delete_on_write.update([line_num])
